@@ -263,6 +263,20 @@ def _foreign_order_field(ctx: "Ctx", f: FuncInfo, msg: str) -> Optional[str]:
     return f"{m.group(1)}.{m.group(2)}" if m.group(2) in params - keys_ else None
 
 
+def unknown_series(*ts: Optional[Term]) -> bool:
+    """a guarded series read (`_extract_data_by_time(t, S)`) whose S is not an attribute of the market (a list made up on
+    the way, a helper's result): the rules know the recorded series, not what stands in for them"""
+    for t in ts:
+        if t is None:
+            continue
+        for x in subterms(strip_ver(t)):
+            if x[0] == "call" and key(x[1]).split(".")[-1] in ("_extract_data_by_time", "_extract_sequential_data_by_time"):
+                sarg = x[2][1] if len(x[2]) > 1 else dict(x[3]).get("parameters")
+                if sarg is not None and strip_ver(sarg)[0] != "attr":
+                    return True
+    return False
+
+
 def nonempty_decision(p: Path, seq: Term) -> Optional[bool]:
     """polarity of the path's decision `seq is non-empty` (len(seq) > 0, len(seq) == 0, truthiness)"""
     seq = strip_ver(seq)
